@@ -143,11 +143,19 @@ def check(repo, rep):
         S1 = P.Pat(lambda t: t[0] == 'sub' and t[1][0] == 'call' and t[2] == ('c', 1), 'stop_s')
         rep.ob('seconds view: start sample = int(start * rate) (truncated toward zero)', lo is not None and P.call('int', P.prod(S0, rate))(lo), W(l.node), '_SecondsView.__getitem__:start', 'start sample is %s' % (show(lo)[:120] if lo else None),
                sample=dict(view='seconds', start=show(lo)[:100] if lo else None))
-        okh = hi is not None and hi[0] == 'ite' and norm_cmp(hi[1], True) and norm_cmp(hi[1], True)[0] in ('is', 'is not') and S1(norm_cmp(hi[1], True)[1])
-        if okh:
-            g = norm_cmp(hi[1], True)
-            none_branch, val_branch = (hi[2], hi[3]) if g[0] == 'is' else (hi[3], hi[2])
-            okh = none_branch == ('c', None) and P.call('round', P.prod(S1, rate))(val_branch)
+        want_hi = P.call('round', P.prod(S1, rate))
+        none_path = any((g := norm_cmp(c[0], c[1])) and g[0] == 'is' and S1(g[1]) and g[2] == ('c', None) for c in l.conds)
+        some_path = any((g := norm_cmp(c[0], c[1])) and g[0] == 'is not' and S1(g[1]) and g[2] == ('c', None) for c in l.conds)
+        if none_path:
+            okh = hi is None or hi == ('c', None)
+        elif some_path:
+            okh = hi is not None and want_hi(hi)
+        else:
+            okh = hi is not None and hi[0] == 'ite' and norm_cmp(hi[1], True) and norm_cmp(hi[1], True)[0] in ('is', 'is not') and S1(norm_cmp(hi[1], True)[1])
+            if okh:
+                g = norm_cmp(hi[1], True)
+                none_branch, val_branch = (hi[2], hi[3]) if g[0] == 'is' else (hi[3], hi[2])
+                okh = none_branch == ('c', None) and want_hi(val_branch)
         rep.ob('seconds view: stop sample = round(stop * rate), None when omitted', bool(okh), W(l.node), '_SecondsView.__getitem__:stop', 'stop sample is %s' % (show(hi)[:160] if hi else None),
                sample=dict(view='seconds', stop=show(hi)[:120] if hi else None))
         cc = [x for x in walk(v) if x[0] == 'call' and x[1][0] == 'g' and x[1][2] == (cn or '')]
